@@ -47,7 +47,7 @@ ASSUMPTIONS = [
     "representation invariant INV for the inductive step: every cached key is present in the inner store and the cached object is what the inner store returns; its reachability is validated by the seq queries",
 ]
 STUBBED_NAMES = None
-BUDGET_S = {"thorough": 900}  # wall budget of the thorough tier: queries not started by then are reported as not run
+BUDGET_S = {"thorough": 1500}  # wall budget of the thorough tier: queries not started by then are reported as not run
 LAST_DETAIL = [""]
 
 
